@@ -67,14 +67,19 @@ type refPair struct {
 // one table per built list, found through the list's id table (lists are built concurrently by conc.batch)
 var refTables sync.Map
 
+type refEntry struct {
+	ids map[*astisub.Item]int // kept alive here: its address is the key, and must not be handed to another list
+	t   map[int]refPair
+}
+
 func refsOf(ids map[*astisub.Item]int) map[int]refPair {
 	k := reflect.ValueOf(ids).Pointer()
-	if t, ok := refTables.Load(k); ok {
-		return t.(map[int]refPair)
+	if e, ok := refTables.Load(k); ok {
+		return e.(refEntry).t
 	}
-	t := map[int]refPair{}
-	refTables.Store(k, t)
-	return t
+	e := refEntry{ids, map[int]refPair{}}
+	refTables.Store(k, e)
+	return e.t
 }
 
 // build turns an mItem into a real *astisub.Item whose every optional part carries the payload tag
